@@ -37,7 +37,12 @@ def run_shard(prop: str, tier: str, seed: int, shard: int, nshards: int, replay_
     ctx.notes["icontract"] = bool(have_icontract)
     budget = getattr(mod, "BUDGET_S", {"quick": 600, "thorough": 3000})
     ctx.deadline = time.time() + budget[tier]
-    mod.run(ctx)
+    try:
+        mod.run(ctx)
+    except Exception as e:  # the workload itself crashed: keep what the monitors recorded, never call it "held"
+        import traceback
+
+        ctx.inconclusive.append(f"workload_crash:{type(e).__name__}:{str(e)[:200]}:{traceback.format_exc(limit=4)[-500:]}")
     return ctx
 
 
@@ -55,6 +60,9 @@ def finish(ctx: Ctx, mod, wall: float, write_evidence: bool = True) -> int:
         n_exc, n_cases = ctx.counters.get(f"{wl}.exceptions", 0), ctx.counters.get(f"{wl}.cases", 0)
         if ctx.replay_case is None and n_cases and n_exc > 0.2 * n_cases:
             ctx.inconclusive.append(f"{wl}_workload_mostly_crashing:{n_exc}/{n_cases}")
+    n_case_exc = sum(v for k, v in ctx.counters.items() if k.endswith(".case_exceptions"))
+    if ctx.replay_case is None and n_case_exc > 0.05 * max(1, ctx.evaluations):
+        ctx.inconclusive.append(f"workload_cases_crashing:{n_case_exc}/{ctx.evaluations}:{ctx.notes.get('case_exception_samples')}")
     distinct = len(ctx.sigs)
     if ctx.replay_case is None and distinct < 2:
         ctx.inconclusive.append(f"too_few_distinct_nontrivial_cases:{distinct}")
